@@ -42,7 +42,8 @@ def gen_case(seed):
             inp = rng.random() < 0.6
             convs = [[v, us[i], inp or rng.random() < 0.4, rng.random() < 0.7] for i in range(n)]
         else:
-            convs = [[v if i == 0 else nv + i - 1, us[i], rng.random() < 0.5, rng.random() < 0.7] for i in range(n)]
+            inp = rng.random() < 0.6
+            convs = [[v if i == 0 else 'prev', us[i], inp or rng.random() < 0.5, rng.random() < 0.7] for i in range(n)]
     return {'seed': seed, 'spec': spec, 'convs': convs}
 
 
@@ -152,7 +153,7 @@ def run_case(case, model=None, objs=None):
     states = []
     consistent = all(x is True for x in units_consistent(m))
     for j, (vi, ui, is_input, move) in enumerate(case['convs']):
-        v = vi % len(reif.objs)
+        v = cvlib.resolve_index(vi, reif.objs, new if j else None)
         orig = reif.objs[v]
         vec = reif.vars[v][1]
         if vec is None:
